@@ -34,7 +34,7 @@ type c18Case struct {
 
 var c18P2Cfgs = []scen.P2Config{{Sizes: []int{11, 6}, Slice: 4, Blocks: 3, Class: "uniq"}, {Sizes: []int{11, 6, 9}, Slice: 4, Blocks: 7, Class: "uniq"},
 														{Sizes: []int{11, 6, 5}, Slice: 4, Blocks: 3, Class: "uniq", Names: []string{"sub/f0", "f1", "sub/deep/f2"}}} // world 2: protected files in sub-directories (any per-directory I/O is a further place to swallow a fault)
-var c18P1Cfgs = []scen.P1Config{{Sizes: []int{7, 5, 0}, Volumes: 2}, {Sizes: []int{7, 0, 3, 8}, Volumes: 3}} // each world protects a zero-length file (a failed read and an empty file both yield no bytes)
+var c18P1Cfgs = []scen.P1Config{{Sizes: []int{7, 5, 0}, Volumes: 2}, {Sizes: []int{7, 0, 3, 8}, Volumes: 3}, {Sizes: []int{1}, Volumes: 1} /* world 2 is PAR2 only */, {Sizes: []int{5, 3}, Volumes: 99}, {Sizes: []int{5, 3}, Volumes: 100}} // each world protects a zero-length file (a failed read and an empty file both yield no bytes)
 
 type c18World struct {
 	world   int
@@ -276,6 +276,7 @@ func c18Gen(g *core.Gen) {
 			}
 		}
 	}
+	c18GenManyVolumes(g)
 	states := []string{"intact", "missing", "changed", "shifted", "beyond", "volmissing", "two", "lookalike", "volnamed"}
 	worlds := []int{0, 2}
 	if g.Thorough() {
@@ -320,6 +321,31 @@ func c18Gen(g *core.Gen) {
 						}
 					}
 				}
+			}
+		}
+	}
+}
+
+// c18GenManyVolumes: PAR1 Create with 99 and 100 volumes (the last two-digit volume name and one beyond it): a fault
+// at every write, of every kind; the limit of the naming scheme is a place where a loop ends early
+func c18GenManyVolumes(g *core.Gen) {
+	for _, world := range []int{3, 4} {
+		w := c18NewWorld("p1", world, g.Seed)
+		fs := w.initial("create", "intact", g.Seed)
+		base := w.run(fs, "create", 0, -1, 0)
+		for i := range base.log {
+			kinds := 1
+			if base.log[i].Kind == "write" {
+				kinds = 1 + len(c18Cuts(base.log[i].Data))
+			}
+			if base.log[i].Kind == "read" {
+				kinds = 2
+			}
+			if kinds > 2 && i > 3 && i < len(base.log)-4 && !g.Thorough() {
+				kinds = 2 // quick tier: every cut position only for the first and last volumes, error + one torn write for the others
+			}
+			for k := 0; k < kinds; k++ {
+				g.Emit(&c18Case{Fmt: "p1", Op: "create", State: "intact", Order: 0, I: i, Kind: k, World: world})
 			}
 		}
 	}
